@@ -113,7 +113,22 @@ class C01(vlib.Driver):
                 add(algo, "vector", True, "partial", 6, rng.randrange(100))
             for algo in ("DQN", "DDPG"):       # AgentWrapper.clone (RSNorm supports the off-policy single-agent algorithms)
                 add(algo, "vector", False, "partial", 6, rng.randrange(100), wrapper=True)
+            # custom encoder (EvolvableResNet): architecture mutations of the encoder, then clones of the mutants
+            cases.append({"algo": "DQN", "family": "image", "share": False, "netcfg": "resnet", "seed": 5, "pop": 2,
+                          "ops": [["learn", 0, 1]] + [["mutate", 0, "arch", 100 + i] for i in range(6)] +
+                                 [["clone", 0, None], ["act", 0, 2], ["act", 2, 2, 0], ["learn", 0, 5], ["learn", 2, 5, 0]] +
+                                 [["mutate", 2, "arch", 120 + i] for i in range(4)] +
+                                 [["clone", 2, 9], ["mutate", 1, "act", 2], ["learn", 1, 3], ["learn", 3, 4], ["learn", 0, 6]]})
         else:
+            for algo in evo.RESNET_ALGOS:
+                for share in ([False, True] if algo in evo.SHARE_CAPABLE else [False]):
+                    cases.append({"algo": algo, "family": "image", "share": share, "netcfg": "resnet", "seed": 7, "pop": 2,
+                                  "ops": [["learn", 0, 1]] + [["mutate", 0, "arch", 100 + i] for i in range(6)] +
+                                         [["clone", 0, None], ["act", 0, 2], ["act", 2, 2, 0], ["learn", 0, 5], ["learn", 2, 5, 0]] +
+                                         [["mutate", 2, "arch", 120 + i] for i in range(4)] +
+                                         [["clone", 2, 9], ["mutate", 1, "act", 2], ["score", 0, 1], ["score", 1, 2], ["score", 2, 3],
+                                          ["score", 3, 9], ["select", [0, 2], True], ["learn", 0, 3], ["learn", 1, 4], ["learn", 2, 6],
+                                          ["learn", 3, 6]]})
             for algo in ("DQN", "RainbowDQN", "CQN", "DDPG", "TD3"):
                 for rep in range(3):
                     add(algo, "vector", False, rng.choice(["partial", "none"]), rng.choice([6, 9]),   # RSNorm: Box observations
